@@ -193,6 +193,9 @@ func verifWait() bool {
 var verifWaits int
 
 func verifPollContexts() {}
+
+// verifSettle lets background goroutines (asynchronous destructors) finish.
+func verifSettle() { time.Sleep(3 * time.Millisecond) }
 func verifSchedPolicy(policy string, free int) {}
 func verifLiveGoroutines() int                { return 0 }
 func verifGrowExact(on bool)                  {}
